@@ -65,6 +65,14 @@ theorem take_isEmpty_iff (l : Bytes) (k : Nat) (hk : 1 ≤ k) : (l.take k).isEmp
 
 @[simp] theorem chanOps_bound (s : Chan) (p : Int) : chanOps.bound s p = s.inp.length := rfl
 
+@[simp] theorem chanOps_seekable : chanOps.seekable = false := rfl
+
+@[simp] theorem syncForRead_chan (f : BF Chan) : syncForRead chanOps f = (f, .ok ()) := by
+  simp [syncForRead]
+
+@[simp] theorem dropReadAhead_chan (f : BF Chan) (d : Bytes) : dropReadAhead chanOps f d = f := by
+  simp [dropReadAhead]
+
 /-! ## read() -/
 
 theorem readAllLoop_chan (fuel : Nat) (f : BF Chan) (acc : Bytes)
@@ -154,7 +162,7 @@ theorem read_some_chan (f : BF Chan) (n : Nat) (hc : f.closed = false) (hr : f.r
     (read chanOps f (some n)).1.closed = f.closed := by
   unfold read
   rw [if_neg (by simp [hc]), if_neg (by simp [hr])]
-  simp only
+  simp only [syncForRead_chan]
   by_cases hle : n ≤ f.rbuf.length
   · simp only [hle, if_true]
     simp [pending, take_append_or _ _ _ (Or.inl hle), drop_append_or _ _ _ (Or.inl hle), wside, cfg]
@@ -178,7 +186,7 @@ theorem read_none_chan (f : BF Chan) (hw : 1 ≤ f.dflt) (hc : f.closed = false)
     (read chanOps f none).1.closed = f.closed := by
   unfold read
   rw [if_neg (by simp [hc]), if_neg (by simp [hr])]
-  simp only [chanOps_bound]
+  simp only [syncForRead_chan, chanOps_bound]
   have h := readAllLoop_chan (f.s.inp.length + 1) { f with rbuf := [], pos := f.pos + f.rbuf.length } f.rbuf
     hw (by simp)
   obtain ⟨h1, h2, h3, h4, h5, h6⟩ := h
@@ -450,6 +458,7 @@ theorem readline_chan (f : BF Chan) (size : Option Nat) (hb : 1 ≤ f.bufsize)
     (readline chanOps f size).1.closed = f.closed := by
   unfold readline
   rw [if_neg (by simp [hc]), if_neg (by simp [hr])]
+  simp only [syncForRead_chan]
   exact rlFrom_chan size (f.s.inp.length + 1) f f.rbuf hb (by omega)
 
 theorem readline_err_chan (f : BF Chan) (size : Option Nat) (h : f.closed = true ∨ f.rd = false) :
@@ -530,8 +539,10 @@ theorem writeAll_chan (f : BF Chan) (data : Bytes) :
     (writeAll chanOps f data).1.wbuf = f.wbuf ∧
     rside (writeAll chanOps f data).1 = rside f ∧
     cfg (writeAll chanOps f data).1 = cfg f ∧
-    (writeAll chanOps f data).1.closed = f.closed :=
-  writeAllLoop_chan (data.length + 1) f data (by omega)
+    (writeAll chanOps f data).1.closed = f.closed := by
+  unfold writeAll
+  rw [dropReadAhead_chan]
+  exact writeAllLoop_chan (data.length + 1) f data (by omega)
 
 theorem flush_chan (f : BF Chan) :
     (flush chanOps f).2 = .ok () ∧
